@@ -355,6 +355,22 @@ def find_guard(fn, site_node, limit):
     return False, what
 
 
+def find_record_guard(fn, site_node, limit):
+    """A byte-string field inside a record: is there, before the pack call, an `if len(X) > limit: raise`
+    where X is an attribute expression (obj.field)?  The field must be the only `…s` of that length."""
+    for n in ast.walk(fn):
+        if isinstance(n, ast.If) and n.lineno < site_node.lineno and any(isinstance(b, ast.Raise) for b in n.body):
+            t = n.test
+            if isinstance(t, ast.Compare) and len(t.ops) == 1 and isinstance(t.comparators[0], ast.Constant) \
+                    and isinstance(t.left, ast.Call) and ast.unparse(t.left.func) == 'len' \
+                    and isinstance(t.left.args[0], ast.Attribute):
+                c = t.comparators[0].value
+                if (isinstance(t.ops[0], ast.Gt) and c == limit) or (isinstance(t.ops[0], ast.GtE) and c == limit + 1) \
+                        or (isinstance(t.ops[0], ast.NotEq) and c == limit):
+                    return True, ast.unparse(t.left.args[0])
+    return False, '(field of a record)'
+
+
 # ----------------------------------------------------------------------------- main
 
 def generate(repo):
@@ -516,13 +532,15 @@ def generate(repo):
             if s.fmt[0] == 'lit':
                 fmts.add(s.fmt[1])
             elif s.fmt[0] == 'layout':
-                fmts |= {layouts[l][s.fmt[1]] for l in layouts}
+                fmts |= {layouts[l][s.fmt[1]] for l in layouts
+                         if not (s.ctx == 'vitamin' and l != 'LUMP_LAYOUT_VITAMIN')
+                         and not (s.ctx == 'not vitamin' and l == 'LUMP_LAYOUT_VITAMIN')}
             for fm in sorted(fmts):
                 for n in str_fields(fm):
                     if s.how == 'struct.pack' and len(str_fields(fm)) == 1 and fm.lstrip('<').rstrip('s').isdigit():
                         g, what = find_guard(fns[f], s.node, n)
                     else:
-                        g, what = False, '(field of a record)'
+                        g, what = find_record_guard(fns[f], s.node, n)
                     if (f, fm, n, g, what) not in str_sites:
                         str_sites.append((f, fm, n, g, what))
 
